@@ -5,6 +5,7 @@ package zzh
 
 import (
 	"errors"
+	"go/ast"
 	"go/token"
 	"go/types"
 	"strings"
@@ -64,10 +65,26 @@ func NewPassSrc(prog *nd.Prog, pkg string, facts Facts, out *[]analysis.Diagnost
 	return newPass(prog, pkg, facts, out, true)
 }
 
+// ReverseFiles makes the passes hand the files of a package to the analyzers in reverse order: go/packages parses the files
+// of a package concurrently, so the order of Pass.Files need not be the order of their positions in the FileSet.
+var ReverseFiles bool
+
+func passFiles(prog *nd.Prog, pkg string) []*ast.File {
+	files := prog.Files(pkg)
+	if !ReverseFiles {
+		return files
+	}
+	var rev []*ast.File
+	for i := len(files) - 1; i >= 0; i-- {
+		rev = append(rev, files[i])
+	}
+	return rev
+}
+
 func newPass(prog *nd.Prog, pkg string, facts Facts, out *[]analysis.Diagnostic, withSrc bool) *analysis.Pass {
 	return &analysis.Pass{
 		Fset:      prog.Fset(),
-		Files:     prog.Files(pkg),
+		Files:     passFiles(prog, pkg),
 		Pkg:       prog.Pkg(pkg),
 		TypesInfo: prog.Info(pkg),
 		Report: func(d analysis.Diagnostic) {
